@@ -274,41 +274,88 @@ def r13_3(ctx):
     d = dict(zip([a.arg for a in f.node.args.args][-len(f.node.args.defaults):], f.node.args.defaults))
     ok = "save_old" in d and ast.unparse(d["save_old"]) == "True"
     (ctx.ok(construct, f.loc(), nontrivial=False) if ok else ctx.bad(construct, "backup is no longer enabled by default", f.loc()))
-    # _save_old
+    # _save_old: what is done with (path, path + ".old"), however the operation is selected (a callable picked into a
+    # local and called once, or a direct if/elif chain) and wherever the copy helper lives
     s = repo.func(f"{CORE}:_save_old")
-    cp = repo.func(f"{CORE}:_save_old.<locals>.copy")
-    ctx.analysed(s.qual, cp.qual)
+    ctx.analysed(s.qual)
     path = s.node.args.args[0].arg
     rs = Resolver(s.node)
     fs = Flow(s.node, resolver=rs).run()
-    asg = [n for n in ast.walk(s.node) if isinstance(n, ast.Assign) and repo.enclosing_func(n) is s and isinstance(n.targets[0], ast.Name)]
-    fnvar = None
-    calls = [n for n in ast.walk(s.node) if isinstance(n, ast.Call) and repo.enclosing_func(n) is s and isinstance(n.func, ast.Name)
-             and [ast.unparse(a) for a in n.args] == [path, f"{path} + '.old'"]]
+
+    def copy_helper(name: str):
+        for h in repo.funcs_in(CORE):
+            if h.name == name and (h.parent is s or (h.parent is None and h.cls is None)):
+                cc_ = [n for n in ast.walk(h.node) if isinstance(n, ast.Call) and ast.unparse(n.func).endswith("copyfile")]
+                if cc_:
+                    return h, cc_[0]
+        return None
+
+    def kind(e: ast.AST):
+        t = ast.unparse(e)
+        if t in ("os.replace", "os.rename"):
+            return "move", None
+        if t.endswith("copyfile"):
+            return "copy", None
+        if isinstance(e, ast.Name) and copy_helper(e.id):
+            return "copy", copy_helper(e.id)
+        return None, None
+
+    from .common import expand_locals
+    want_args = [path, f"{path} + '.old'"]
+    arms = []  # (kind, guards, node, helper)
+    for n in ast.walk(s.node):
+        if not (isinstance(n, ast.Call) and repo.enclosing_func(n) is s and len(n.args) == 2):
+            continue
+        if [expand_locals(s.node, a_) for a_ in n.args] != want_args:
+            continue
+        k, h = kind(n.func)
+        if k:
+            arms.append((k, fs.guards_at(n) or set(), n, h))
+        elif isinstance(n.func, ast.Name):
+            # a callable chosen earlier: one arm per assignment to that local
+            for a_ in ast.walk(s.node):
+                if isinstance(a_, ast.Assign) and repo.enclosing_func(a_) is s and isinstance(a_.targets[0], ast.Name) and a_.targets[0].id == n.func.id:
+                    k2, h2 = kind(a_.value)
+                    arms.append((k2 or "?" + ast.unparse(a_.value), fs.guards_at(a_) or set(), a_, h2))
     construct = "_save_old/symlink arm copies, regular-file arm moves atomically"
-    if not calls:
-        ctx.bad(construct, f"no call <fn>({path}, {path} + '.old')", s.loc())
+    if not arms:
+        ctx.bad(construct, f"no operation on ({path}, {path} + '.old') found", s.loc())
     else:
-        fnvar = calls[0].func.id
-        arms = []
-        for a in asg:
-            if a.targets[0].id == fnvar:
-                arms.append((ast.unparse(a.value), fs.guards_at(a) or set()))
+        islink = {f"islink({path})", f"os.path.islink({path})"}
+
+        def is_link(g):
+            return any(expand_locals(s.node, ast.parse(k_, mode="eval").body) in islink and p_ for k_, p_ in g if _parses(k_))
+
+        link = [k_ for k_, g_, _, _ in arms if is_link(g_)]
+        nolink = [k_ for k_, g_, _, _ in arms if not is_link(g_)]
         msgs = []
-        islink = {(f"islink({path})", True), (f"os.path.islink({path})", True)}
-        link = [v for v, g in arms if g & islink]
-        nolink = [(v, g) for v, g in arms if not (g & islink)]
-        if link != ["copy"]:
-            msgs.append(f"symlink arm uses {link} instead of the copy helper (the link would be replaced / lost)")
-        if not nolink or nolink[0][0] not in ("os.replace", "os.rename"):
-            msgs.append(f"regular files are first backed up with {nolink[0][0] if nolink else None} instead of an atomic move")
-        (ctx.bad(construct, "; ".join(msgs), s.loc(calls[0])) if msgs else ctx.ok(construct, s.loc(calls[0]), arms=[(v, sorted(map(str, g))) for v, g in arms]))
-    cc = [n for n in ast.walk(cp.node) if isinstance(n, ast.Call) and ast.unparse(n.func).endswith("copyfile")]
+        if not link or any(k_ != "copy" for k_ in link):
+            msgs.append(f"symlink arm uses {link} instead of a copy (the link would be replaced / lost)")
+        if not nolink or nolink[0] != "move":
+            msgs.append(f"regular files are first backed up with {nolink[0] if nolink else None} instead of an atomic move")
+        (ctx.bad(construct, "; ".join(msgs), s.loc(arms[0][2])) if msgs else ctx.ok(construct, s.loc(arms[0][2]), arms=[(k_, sorted(map(str, g_))) for k_, g_, _, _ in arms]))
     construct = "_save_old.copy/independent regular copy (follows the link)"
-    ok = bool(cc) and not any(kw.arg == "follow_symlinks" and ast.unparse(kw.value) == "False" for kw in cc[0].keywords) \
-        and [ast.unparse(a) for a in cc[0].args] == [a.arg for a in cp.node.args.args]
-    (ctx.ok(construct, cp.loc(cc[0])) if ok else ctx.bad(construct, "the backup of a symlinked configuration is not an independent copy of its contents: "
-                                                         "truncating the destination truncates the backup too", cp.loc()))
+    helpers = [h for k_, _, _, h in arms if k_ == "copy" and h]
+    direct = [n_ for k_, _, n_, h in arms if k_ == "copy" and not h and isinstance(n_, ast.Call)]
+    if not helpers and not direct:
+        ctx.bad(construct, "no copy operation found for the symlink case", s.loc())
+    else:
+        okc = True
+        for h, c_ in helpers:
+            okc = okc and not any(kw.arg == "follow_symlinks" and ast.unparse(kw.value) == "False" for kw in c_.keywords) \
+                and [ast.unparse(a_) for a_ in c_.args] == [a_.arg for a_ in h.node.args.args]
+        for c_ in direct:
+            okc = okc and not any(kw.arg == "follow_symlinks" and ast.unparse(kw.value) == "False" for kw in c_.keywords)
+        (ctx.ok(construct, s.loc()) if okc else ctx.bad(construct, "the backup of a symlinked configuration is not an independent copy of its contents: "
+                                                        "truncating the destination truncates the backup too", s.loc()))
+
+
+def _parses(k: str) -> bool:
+    try:
+        ast.parse(k, mode="eval")
+        return True
+    except SyntaxError:
+        return False
 
 
 def r13_4(ctx):
@@ -336,10 +383,11 @@ def r13_4(ctx):
     repo = ctx.repo
     s = repo.func(f"{CORE}:_save_old")
     path = s.node.args.args[0].arg
-    calls = [n for n in ast.walk(s.node) if isinstance(n, ast.Call) and repo.enclosing_func(n) is s and isinstance(n.func, ast.Name) and len(n.args) == 2
+    from .common import expand_locals
+    calls = [n for n in ast.walk(s.node) if isinstance(n, ast.Call) and repo.enclosing_func(n) is s and len(n.args) == 2
              and ast.unparse(n.args[0]) == path]
     construct = "_save_old/backup is <destination>.old"
-    ok = bool(calls) and ast.unparse(calls[0].args[1]).replace('"', "'") == f"{path} + '.old'"
+    ok = bool(calls) and all(expand_locals(s.node, c_.args[1]) == f"{path} + '.old'" for c_ in calls)
     (ctx.ok(construct, s.loc(calls[0]) if calls else s.loc()) if ok else
      ctx.bad(construct, f"the backup goes to `{ast.unparse(calls[0].args[1]) if calls else '?'}`: for a destination with a dot in its name (sdkconfig.ci) the previous contents are "
              "not in <destination>.old", s.loc(calls[0]) if calls else s.loc()))
